@@ -52,6 +52,7 @@ def DupFree (s : St) : Prop := ∀ i, cntLS s i ≤ 1
 finds no row in them that is still in memory or already in Parquet (nor twice in the files) -/
 def dupSafe (s : St) : Ev → Bool
   | .write _ rows => rows.all (fun r => decide (cnt rows r.id + cntLS s r.id ≤ 1))
+  | .writeT _ _ rows => rows.all (fun r => decide (cnt rows r.id + cntLS s r.id ≤ 1))
   | .tick => (filesRows s.files).all (fun r => decide (phi s r.id ≤ 1))
   | .restart => (filesRows s.files).all (fun r => decide (phi s r.id ≤ 1))
   | _ => true
@@ -81,6 +82,13 @@ theorem step_dupFree (c : Cfg) (s : St) (e : Ev) (obs : List Nat) (hs : DupFree 
       show cntLS (step c s (.write k rows) obs) i ≤ 1
       have hb' : cntLS (step c s (.write k rows) obs) i ≤ cntLS s i + cnt rows i := hb
       omega
+    | writeT d k rows =>
+      obtain ⟨r, hr, hi⟩ := cnt_pos_mem (show 0 < cnt rows i from hpos)
+      have := (List.all_eq_true.mp hc) r hr
+      simp only [hi, decide_eq_true_eq] at this
+      have hb' : cntLS (step c s (.writeT d k rows) obs) i ≤ cntLS s i + cnt rows i := hb
+      omega
+    | stall => exact absurd rfl ha
     | tick =>
       obtain ⟨r, hr, hi⟩ := cnt_pos_mem (show 0 < cnt (filesRows s.files) i from hpos)
       have := (List.all_eq_true.mp hc) r hr
@@ -277,24 +285,22 @@ theorem C07_eventually_benign_events (c : Cfg) (s : St) (obs : List Nat) (e : Ev
 /-! ## WAL disabled: a dropped write is not acknowledged -/
 
 /-- **nowal_ack, FULL strength** (current tree, facts regenerated): for every configuration carrying the
-generated facts with the WAL disabled, every state of a buffer that is not closing, every key and batch:
-a write that is acknowledged did not take the queue-full arm of `tryEnqueueFlush`, i.e. its rows were
-buffered or handed to the flush queue.  (`closing` is the flushSkipClosing short-circuit of a buffer whose
-`Close()` is in progress; the HTTP server has stopped by then.  No hypothesis on `closing` is needed for
-the statement about the queue-full arm.) -/
+generated facts with the WAL disabled, every state, every write path (0 generic columnar, 1 typed msgpack
+decode, 2 `WriteTypedColumnarDirect`), every key and batch: a write that is acknowledged did not take the
+queue-full arm of `tryEnqueueFlush`, i.e. its rows were buffered or handed to the flush queue. -/
 theorem C07_nowal_ack (c : Cfg) (hf : c.facts = Arc.Generated.C07.facts) (hw : c.walOn = false)
-    (s : St) (k : Nat) (rows : List Row) (ha : (write c s k rows).lastAck = true) :
-    (write c s k rows).lastFull = false := by
-  have hrep : reportsFull c = true := by
-    unfold reportsFull; rw [hf, hw]; decide
-  unfold write finishWrite at ha ⊢
+    (s : St) (path k : Nat) (rows : List Row) (ha : (writeP c s path k rows).lastAck = true) :
+    (writeP c s path k rows).lastFull = false := by
+  have hrep : reportsOn c path = true := by
+    unfold reportsOn reportsFull reportsFullTyped; rw [hf, hw]; split <;> decide
+  unfold writeP finishWrite at ha ⊢
   simp only [ackOf, hrep, Bool.and_true, Bool.not_eq_true'] at ha
   simpa using ha
 
-/-- the same for any facts that report the drop (used to be the `_partial` form) -/
-theorem C07_nowal_ack_of_reports (c : Cfg) (s : St) (k : Nat) (rows : List Row) (hr : reportsFull c = true)
-    (ha : (write c s k rows).lastAck = true) : (write c s k rows).lastFull = false := by
-  unfold write finishWrite at ha ⊢
+/-- the same for any facts that report the drop on that path -/
+theorem C07_nowal_ack_of_reports (c : Cfg) (s : St) (path k : Nat) (rows : List Row) (hr : reportsOn c path = true)
+    (ha : (writeP c s path k rows).lastAck = true) : (writeP c s path k rows).lastFull = false := by
+  unfold writeP finishWrite at ha ⊢
   simp only [ackOf, hr, Bool.and_true, Bool.not_eq_true'] at ha
   simpa using ha
 
@@ -309,8 +315,24 @@ theorem C07_nowal_ack_prefix_witness :
     ∧ ((runO (cfgGen false) {} traceNoWal).lastAck = false ∧ (runO (cfgGen false) {} traceNoWal).lastFull = true
       ∧ (runO (cfgGen false) {} traceNoWal).acked.contains 5 = false) := by decide
 
--- non-vacuity: an acknowledged write in the generated WAL-off configuration
-example : (runO (cfgGen false) {} (noObs [.restart, .write 0 [r 1 0, r 2 0]])).lastAck = true := by decide
+-- non-vacuity: acknowledged writes on the generic and on the typed path in the generated WAL-off configuration
+example : (runO (cfgGen false) {} (noObs [.restart, .write 0 [r 1 0, r 2 0]])).lastAck = true
+    ∧ (runO (cfgGen false) {} (noObs [.restart, .writeT true 0 [r 1 0, r 2 0]])).lastAck = true := by decide
+
+/-- the typed path under saturation with the WAL disabled: refused, nothing acknowledged is lost -/
+def traceNoWalTyped : Trace := noObs [.restart, .hold, .writeT false 0 [r 1 0, r 2 0], .writeT true 0 [r 3 0, r 4 0],
+  .writeT false 0 [r 5 0, r 6 0], .writeT true 0 [r 7 0, r 8 0]]
+theorem C07_nowal_ack_typed_paths :
+    (runO (cfgGen false) {} traceNoWalTyped).lastAck = false
+      ∧ (runO (cfgGen false) {} traceNoWalTyped).acked = [1, 2, 3, 4] := by decide
+
+/-- a stalled storage write (flush deadline exceeded) on the worker path raises the flag like an error
+does, so the tick replays the rows: stored exactly once -/
+def traceStall : Trace := noObs [.restart, .stall, .write 0 [r 1 0, r 2 0], .adv 310, .write 1 [r 3 0, r 4 0],
+  .mode none, .adv 10, .tick]
+theorem C07_stall_flags_and_replays :
+    (runO (cfgGen true) {} (traceStall.take 3)).flag = true
+      ∧ cnt (runO (cfgGen true) {} traceStall).stored 1 = 1 := by decide
 
 /-! ## what the small repairs buy (facts edited, same traces) -/
 
